@@ -280,6 +280,7 @@ var nop = zap.NewNop()
 
 func execute(x *explore.Exec, sc *Scn, b *built, stream string, fin bool) {
 	conn := hm.NewSConn(x, []byte(stream), fin)
+	conn.EOFWithData = true // the last bytes may arrive together with end-of-stream
 	conn.TimeoutAlt = true
 	tr := &hm.Trace{}
 	fallbacks := 0
